@@ -85,8 +85,8 @@ def run(ctx):
                 ctx.report('%s-wrong' % c[0], 'library %s%s = %s violates the property (%s); model gives %s' % (c[0], c[1:], impl[i], fail, mout[j]),
                            {'case': lines[i], 'impl': impl[i], 'model': mout[j], 'why': fail})
             else:
-                ctx.report('correspondence:' + c[0], 'model and implementation disagree on %s: impl %s, model %s (property predicate holds at this input)' % (lines[i], impl[i], mout[j]),
-                           {'case': lines[i], 'impl': impl[i], 'model': mout[j], 'correspondence': c[0]}, no_input=True)
+                ctx.soft('correspondence:' + c[0], 'model and implementation disagree on %s: impl %s, model %s (property predicate holds at this input)' % (lines[i], impl[i], mout[j]),
+                         {'case': lines[i], 'impl': impl[i], 'model': mout[j], 'correspondence': c[0]})
     # oracle on every implementation output, independent of the model
     stage2 = []
     for i, c in enumerate(cases):
